@@ -282,6 +282,9 @@ func (ni *NodeInfo) setOversubscription(node *v1.Node) {
 
 	ni.OversubscriptionNode = false
 	ni.OfflineJobEvicting = false
+	// The oversold amounts are, like the flags, a function of this node object alone: an amount
+	// whose annotation is gone must not survive from the previous version of the node.
+	ni.OversubscriptionResource = EmptyResource()
 	if len(node.Labels) > 0 {
 		if value, found := node.Labels[OversubscriptionNode]; found {
 			b, err := strconv.ParseBool(value)
